@@ -352,8 +352,275 @@ fn c09_overlay_direction_switch(dir: PathBuf) -> ScenFut<'static> {
     })
 }
 
+fn last_wal_segment(dir: &std::path::Path) -> Option<PathBuf> {
+    let mut v: Vec<PathBuf> = std::fs::read_dir(dir.join("wal")).ok()?.flatten().map(|e| e.path()).filter(|p| p.extension().map(|x| x == "wal").unwrap_or(false)).collect();
+    v.sort();
+    v.pop()
+}
+
+async fn commit_after_damage(dir: PathBuf, damage: fn(&mut Vec<u8>), what: &str) -> Result<(), String> {
+    let cfg = base_cfg(); // flush_on_close = false: data stays in the WAL
+    let t = cfg.open(&dir).map_err(|e| e.to_string())?;
+    for i in 0..3u8 {
+        put(&t, &[(&[b'a', b'0' + i][..], b"old")]).await?;
+    }
+    close(t).await;
+    let seg = last_wal_segment(&dir).ok_or("no wal segment")?;
+    let mut bytes = std::fs::read(&seg).map_err(|e| e.to_string())?;
+    damage(&mut bytes);
+    std::fs::write(&seg, &bytes).map_err(|e| e.to_string())?;
+    // session 2: recover, then commit with immediate durability
+    let t = cfg.open(&dir).map_err(|e| format!("open after {what} failed: {e}"))?;
+    {
+        let mut tx = t.begin().map_err(|e| e.to_string())?;
+        tx.set_durability(surrealkv::Durability::Immediate);
+        tx.set(&b"new"[..], &b"X"[..]).map_err(|e| e.to_string())?;
+        tx.commit().await.map_err(|e| format!("commit after recovery failed: {e}"))?;
+    }
+    close(t).await;
+    // session 3
+    let t = cfg.open(&dir).map_err(|e| format!("second open failed: {e}"))?;
+    let got = {
+        let tx = t.begin_with_mode(Mode::ReadOnly).map_err(|e| e.to_string())?;
+        tx.get(&b"new"[..]).map_err(|e| e.to_string())?
+    };
+    close(t).await;
+    if got.as_deref() == Some(&b"X"[..]) {
+        Ok(())
+    } else {
+        Err(format!("{what}: a transaction committed (Immediate) in the session after recovery is gone after the next clean close + reopen (get(new) = {:?})", got))
+    }
+}
+
+fn c02_commit_after_wal_repair(dir: PathBuf) -> ScenFut<'static> {
+    Box::pin(async move {
+        commit_after_damage(
+            dir,
+            |b| {
+                // flip a payload byte of the last record: CRC mismatch -> repair rewrites the segment
+                let n = b.len();
+                b[n - 2] ^= 0x5a;
+            },
+            "WAL tail record damaged (checksum mismatch, repaired on open)",
+        )
+        .await
+    })
+}
+
+fn c02_commit_after_torn_header(dir: PathBuf) -> ScenFut<'static> {
+    Box::pin(async move {
+        commit_after_damage(
+            dir,
+            |b| {
+                // a crash tore the next record after 3 header bytes
+                b.extend_from_slice(&[0x12, 0x34, 0x56]);
+            },
+            "WAL ends with a 3-byte torn record header",
+        )
+        .await
+    })
+}
+
+fn c07_vlog_torn_header(dir: PathBuf) -> ScenFut<'static> {
+    Box::pin(async move {
+        let cfg = Cfg { vlog: true, vlog_threshold: 16, vlog_max_file: 4096, ..base_cfg() };
+        let t = cfg.open(&dir).map_err(|e| e.to_string())?;
+        put(&t, &[(b"k", &[7u8; 100][..])]).await?;
+        t.verif_flush().map_err(|e| e.to_string())?;
+        close(t).await;
+        // power was lost after the first 6 bytes of the next value-log file reached the disk
+        let mut ids: Vec<u64> = std::fs::read_dir(dir.join("vlog"))
+            .map_err(|e| e.to_string())?
+            .flatten()
+            .filter_map(|e| e.file_name().to_string_lossy().strip_suffix(".vlog").and_then(|s| s.parse().ok()))
+            .collect();
+        ids.sort();
+        let next = ids.last().copied().unwrap_or(0) + 1;
+        std::fs::write(dir.join("vlog").join(format!("{:020}.vlog", next)), [0x56u8, 0x4c, 0x4f, 0x47, 0, 1]).map_err(|e| e.to_string())?;
+        match cfg.open(&dir) {
+            Ok(t) => {
+                let got = {
+                    let tx = t.begin_with_mode(Mode::ReadOnly).map_err(|e| e.to_string())?;
+                    tx.get(&b"k"[..]).map_err(|e| e.to_string())?
+                };
+                close(t).await;
+                if got.as_deref() == Some(&[7u8; 100][..]) {
+                    Ok(())
+                } else {
+                    Err("value lost after reopen".into())
+                }
+            }
+            Err(e) => Err(format!("a value-log file whose header was only partly written before a power loss (6 of 31 bytes, nothing references it) makes the store refuse to open: {e}")),
+        }
+    })
+}
+
+fn c07_wal_segment_split_on_replay(dir: PathBuf) -> ScenFut<'static> {
+    Box::pin(async move {
+        // session 1: ~40 KiB of commits in one WAL segment, closed without flushing
+        let cfg1 = Cfg { max_memtable_size: 256 * 1024, ..base_cfg() };
+        let t = cfg1.open(&dir).map_err(|e| e.to_string())?;
+        let val = vec![0x61u8; 400];
+        for i in 0..100u32 {
+            let k = format!("key{:04}", i);
+            put(&t, &[(k.as_bytes(), &val[..])]).await?;
+        }
+        close(t).await;
+        // session 2: the segment does not fit one memtable any more (the traced crash runs
+        // hit the same path with unchanged options: skip-list tower heights are random, so a
+        // replayed segment can need a little more arena than the memtable it came from)
+        let cfg2 = Cfg { max_memtable_size: 16 * 1024, ..base_cfg() };
+        let t = cfg2.open(&dir).map_err(|e| format!("recovery failed: {e}"))?;
+        let count = |t: &Tree| -> Result<usize, String> {
+            let tx = t.begin_with_mode(Mode::ReadOnly).map_err(|e| e.to_string())?;
+            let mut it = tx.range(&b"key"[..], &b"kez"[..]).map_err(|e| e.to_string())?;
+            Ok(collect_fwd(&mut it)?.len())
+        };
+        let n1 = count(&t)?;
+        close(t).await;
+        // session 3
+        let t = cfg2.open(&dir).map_err(|e| format!("second open failed: {e}"))?;
+        let n2 = count(&t)?;
+        close(t).await;
+        if n1 != 100 {
+            return Err(format!("recovery of an over-full WAL segment returned {} of 100 keys", n1));
+        }
+        if n2 != 100 {
+            return Err(format!(
+                "a WAL segment larger than one memtable is split on replay; its first part is flushed and the whole segment is marked flushed while the rest is only in memory: after recovery 100 keys, after a clean close + reopen {} keys",
+                n2
+            ));
+        }
+        Ok(())
+    })
+}
+
+fn c02_rotation_straddling_commit(dir: PathBuf) -> ScenFut<'static> {
+    Box::pin(async move {
+        // flush_on_close = false: whatever is only in a memtable at close must come back from the WAL
+        let cfg = Cfg { max_memtable_size: 16 * 1024, ..base_cfg() };
+        let t = cfg.open(&dir).map_err(|e| e.to_string())?;
+        let val = vec![0x62u8; 700];
+        let mut straddler: Option<u32> = None;
+        for i in 0..200u32 {
+            let k = format!("key{:04}", i);
+            put(&t, &[(k.as_bytes(), &val[..])]).await?;
+            let lay = t.verif_layout().map_err(|e| e.to_string())?;
+            if lay.immutables > 0 {
+                // this commit found the memtable full: the memtable and the WAL were rotated
+                // inside its apply step, after its WAL record had gone to the old segment
+                straddler = Some(i);
+                break;
+            }
+        }
+        let Some(i) = straddler else { return Err("harness: no rotation happened".into()) };
+        // the old memtable is flushed, which releases (deletes) the old WAL segment
+        t.verif_flush_one().map_err(|e| e.to_string())?;
+        tokio::time::sleep(std::time::Duration::from_millis(20)).await;
+        close(t).await;
+        let t = cfg.open(&dir).map_err(|e| format!("reopen failed: {e}"))?;
+        let k = format!("key{:04}", i);
+        let got = {
+            let tx = t.begin_with_mode(Mode::ReadOnly).map_err(|e| e.to_string())?;
+            tx.get(k.as_bytes()).map_err(|e| e.to_string())?
+        };
+        close(t).await;
+        if got.is_some() {
+            Ok(())
+        } else {
+            Err(format!(
+                "the acknowledged commit #{} whose apply step rotated the full memtable has its WAL record in the old segment but lives in the new memtable; after the old memtable was flushed (old segment deleted) and the process stopped without flushing, the commit is gone",
+                i
+            ))
+        }
+    })
+}
+
+fn c03_batch_torn_by_rotation(dir: PathBuf) -> ScenFut<'static> {
+    Box::pin(async move {
+        // A multi-key transaction finds the memtable full in the middle of its apply step.
+        // Whatever is flushed from the old memtable must not contain a part of it.
+        let cfg = Cfg { max_memtable_size: 16 * 1024, ..base_cfg() };
+        let t = cfg.open(&dir).map_err(|e| e.to_string())?;
+        let val = vec![0x63u8; 300];
+        let mut torn: Option<u32> = None;
+        for i in 0..200u32 {
+            // 10-key transaction, ~3.3 KiB
+            let keys: Vec<Vec<u8>> = (0..10).map(|j| format!("t{:03}k{}", i, j).into_bytes()).collect();
+            let kvs: Vec<(&[u8], &[u8])> = keys.iter().map(|k| (k.as_slice(), &val[..])).collect();
+            put(&t, &kvs).await?;
+            if t.verif_layout().map_err(|e| e.to_string())?.immutables > 0 {
+                torn = Some(i);
+                break;
+            }
+        }
+        let Some(i) = torn else { return Err("harness: no rotation happened".into()) };
+        // flush only the OLD memtable and look at what reached the table
+        t.verif_flush_one().map_err(|e| e.to_string())?;
+        tokio::time::sleep(std::time::Duration::from_millis(20)).await;
+        // stop without flushing; simulate the loss of the unsynced WAL tail by removing the newest segment
+        close(t).await;
+        if let Some(seg) = last_wal_segment(&dir) {
+            let _ = std::fs::remove_file(seg);
+        }
+        let t = cfg.open(&dir).map_err(|e| format!("reopen failed: {e}"))?;
+        let present = {
+            let tx = t.begin_with_mode(Mode::ReadOnly).map_err(|e| e.to_string())?;
+            let lo = format!("t{:03}k", i).into_bytes();
+            let hi = format!("t{:03}l", i).into_bytes();
+            let mut it = tx.range(&lo[..], &hi[..]).map_err(|e| e.to_string())?;
+            collect_fwd(&mut it)?.len()
+        };
+        close(t).await;
+        if present == 0 || present == 10 {
+            Ok(())
+        } else {
+            Err(format!(
+                "transaction #{} (10 keys) hit a full memtable in the middle of its apply step: {} of its 10 keys were left in the old memtable and flushed to a table; after losing the unsynced WAL tail the store shows the transaction partly",
+                i, present
+            ))
+        }
+    })
+}
+
 pub fn all() -> Vec<Scenario> {
     vec![
+        Scenario {
+            id: "C03-batch-torn-by-rotation",
+            property: "C03",
+            title: "multi-key transaction whose apply step meets a full memtable, old memtable flushed, WAL tail lost",
+            run: c03_batch_torn_by_rotation,
+        },
+        Scenario {
+            id: "C02-rotation-straddling-commit",
+            property: "C02",
+            title: "the commit that triggers a memtable rotation, after the old memtable is flushed",
+            run: c02_rotation_straddling_commit,
+        },
+        Scenario {
+            id: "C07-wal-segment-split-on-replay",
+            property: "C07",
+            title: "recovery of a WAL segment that does not fit one memtable, then close + reopen",
+            run: c07_wal_segment_split_on_replay,
+        },
+        Scenario {
+            id: "C07-vlog-torn-header",
+            property: "C07",
+            title: "reopen with a value-log file shorter than its header (torn by power loss)",
+            run: c07_vlog_torn_header,
+        },
+        Scenario {
+            id: "C02-commit-after-wal-repair",
+            property: "C02",
+            title: "commit in the session after a WAL repair, then reopen",
+            run: c02_commit_after_wal_repair,
+        },
+        Scenario {
+            id: "C02-commit-after-torn-header",
+            property: "C02",
+            title: "commit in the session after recovery from a torn record header, then reopen",
+            run: c02_commit_after_torn_header,
+        },
         Scenario {
             id: "C09-overlay-direction-switch",
             property: "C09",
@@ -410,8 +677,7 @@ pub fn run_for(run: &mut Run, property: &str) -> Vec<String> {
     let findings = load_findings();
     let mut open_failed = vec![];
     let mut results = vec![];
-    let prev_hook = std::panic::take_hook();
-    std::panic::set_hook(Box::new(|_| {}));
+    crate::panics::install();
     for s in all().into_iter().filter(|s| s.property == property) {
         let dir = e1::scratch_root().join(format!("scen-{}", s.id));
         let _ = std::fs::remove_dir_all(&dir);
@@ -429,7 +695,6 @@ pub fn run_for(run: &mut Run, property: &str) -> Vec<String> {
             }
         }
     }
-    std::panic::set_hook(prev_hook);
     run.cov("directed_scenarios", json!(results));
     open_failed
 }
